@@ -513,3 +513,141 @@ func (r *Run) FirstEffect(fnName, match, why string) {
 	}
 	r.viol("K2-first-effect", fnName, construct, match+" is not called in the entry block of "+fnName, why, file, line)
 }
+
+// Returns: the set of canonical return forms of fn equals want (order-insensitive).
+func (r *Run) Returns(fnName string, want []string, why string) {
+	fn := r.fn(fnName)
+	if fn == nil {
+		return
+	}
+	file, line := r.P.FnPos(fn)
+	got := map[string]bool{}
+	for _, e := range r.P.Effects(fn) {
+		if e.Kind == "return" {
+			got[e.Canon] = true
+		}
+	}
+	ws := map[string]bool{}
+	for _, w := range want {
+		ws["return "+r.X(w)] = true
+	}
+	var missing, extra []string
+	for w := range ws {
+		if !got[w] {
+			missing = append(missing, w)
+		}
+	}
+	for g := range got {
+		if !ws[g] {
+			extra = append(extra, g)
+		}
+	}
+	sort.Strings(missing)
+	sort.Strings(extra)
+	construct := "result forms"
+	if len(missing) > 0 || len(extra) > 0 {
+		r.viol("K4-returns", fnName, construct, fmt.Sprintf("%s: result expressions changed; missing: %v; new: %v", fnName, missing, extra), why, file, line)
+		return
+	}
+	r.pass("K4-returns", fnName, construct, fmt.Sprintf("%d result forms", len(ws)), why, file, line)
+}
+
+// Branch: fn has a conditional branch with this canonical condition (either polarity).
+func (r *Run) Branch(fnName, cond, why string) {
+	fn := r.fn(fnName)
+	if fn == nil {
+		return
+	}
+	cond = r.X(cond)
+	file, line := r.P.FnPos(fn)
+	for _, g := range r.P.Info(fn).guards {
+		if g.Cond.String() == cond || g.Cond.Negate().String() == cond {
+			r.pass("K3-branch", fnName, "branches on "+cond, "", why, g.File, g.Line)
+			return
+		}
+	}
+	var have []string
+	for _, g := range r.P.Info(fn).guards {
+		have = append(have, g.Cond.String())
+	}
+	r.viol("K3-branch", fnName, "branches on "+cond, fmt.Sprintf("%s no longer branches on %s; it branches on: %s", fnName, cond, strings.Join(have, " ; ")), why, file, line)
+}
+
+// SignConversions: every sign-changing or narrowing integer conversion of a non-constant value in the
+// listed functions must be triaged in table (key: function + "|" + canonical conversion). Untriaged
+// ones are violations; entries with verdict "unsafe" are violations (known findings may list them).
+func (r *Run) SignConversions(fnNames []string, table map[string]string, why string) {
+	n := 0
+	for _, fnName := range fnNames {
+		fn := r.fn(fnName)
+		if fn == nil {
+			continue
+		}
+		env := r.P.Env(fn)
+		seen := map[string]bool{}
+		for _, b := range fn.Blocks {
+			for _, in := range b.Instrs {
+				cv, ok := in.(*ssa.Convert)
+				if !ok || !riskyConv(cv.X.Type(), cv.Type()) {
+					continue
+				}
+				if _, isC := cv.X.(*ssa.Const); isC {
+					continue
+				}
+				canon := env.of(cv).String()
+				if seen[canon] {
+					continue
+				}
+				seen[canon] = true
+				n++
+				file, line := r.P.Pos(cv.Pos())
+				verdict, ok := table[fnName+"|"+canon]
+				switch {
+				case !ok:
+					r.viol("K11-sign-trunc", fnName, canon, fmt.Sprintf("untriaged integer conversion %s in %s: it changes signedness or narrows a run-time value; bound it or add a triage row", canon, fnName), why, file, line)
+				case strings.HasPrefix(verdict, "unsafe:"):
+					r.viol("K11-sign-trunc", fnName, canon, strings.TrimPrefix(verdict, "unsafe:"), why, file, line)
+				default:
+					r.pass("K11-sign-trunc", fnName, canon, verdict, why, file, line)
+				}
+			}
+		}
+	}
+	if n == 0 {
+		r.viol("vacuous-rule", "", "sign conversions", "no conversion found in the listed functions", why, "", 0)
+	}
+}
+
+// StoreBefore: a store whose canonical form starts with storePrefix dominates the evaluation of the
+// rejecting guard with canonical form guardFull (so the guard tests the stored, recomputed value).
+func (r *Run) StoreBefore(fnName, storePrefix, guardFull, why string) {
+	fn := r.fn(fnName)
+	if fn == nil {
+		return
+	}
+	storePrefix, guardFull = r.X(storePrefix), r.X(guardFull)
+	file, line := r.P.FnPos(fn)
+	construct := storePrefix + "… before " + guardFull
+	var g *Guard
+	for _, x := range r.P.Info(fn).guards {
+		if x.Reject != "" && x.Full() == guardFull {
+			g = x
+		}
+	}
+	if g == nil {
+		r.viol("K2-store-before-guard", fnName, construct, "guard not found: "+guardFull, why, file, line)
+		return
+	}
+	for _, e := range r.P.Effects(fn) {
+		if e.Kind == "store" && strings.HasPrefix(e.Canon, storePrefix) {
+			sb := e.Instr.Block()
+			if sb == g.Block || sb.Dominates(g.Block) {
+				r.pass("K2-store-before-guard", fnName, construct, "", why, e.File, e.Line)
+				return
+			}
+			r.viol("K2-store-before-guard", fnName, construct, fmt.Sprintf("the store at %s:%d does not dominate the guard at %s:%d: the guard can be evaluated on a value that was not recomputed", e.File, e.Line, g.File, g.Line), why, e.File, e.Line)
+			return
+		}
+	}
+	r.viol("K2-store-before-guard", fnName, construct, "store not found", why, file, line)
+}
